@@ -66,7 +66,14 @@ def tasks(ctx, quick):
                 ws = sorted(rng.sample([1, 2, 3, 4, 5, 6, 8, 12, 20], rng.randint(1, 5)))     # an integer-typed vector
             else:
                 ws = sorted(rng.sample(WAVELENGTHS, rng.randint(1, 6)))
-            add(dict(base, rel="vector", vector=ws, index=rng.randrange(len(ws))))
+            add(dict(base, rel="vector", vector=ws, index=rng.randrange(len(ws)), reuse_buffer=(i % 4 == 1)))
+    # a wavelength buffer the caller fills again between two calls (one array object, new contents): results depend on the
+    # wavelengths, not on which array they arrive in; over every atom whose scattering length depends on the energy
+    for j, (z, a) in enumerate([(62, 0), (63, 0), (64, 0), (66, 164), (68, 0), (70, 0), (71, 0), (62, 149), (63, 151), (64, 155),
+                                (64, 157), (68, 167), (70, 168), (70, 174), (71, 176), (71, 175)]):
+        ws = sorted(rng.sample([0.2, 0.3, 0.45, 0.6, 0.8, 1.0, 1.3, 1.798, 2.5], rng.randint(2, 5)))
+        add({"kind": "rel", "compound": ["dict", [[z, a, 0, 2], [8, 0, 0, 3]]], "density": 7.4, "wavelength": 1.0, "how": "density",
+             "rel": "vector", "vector": ws, "index": rng.randrange(len(ws)), "reuse_buffer": True})
     # k * Formula keeps the material; '+' and blank between groups spell the same compound
     eb = __import__("ptv.rawtables", fromlist=["x"]).element_base()
     for i in range(60 if quick else 600):
